@@ -216,6 +216,61 @@ def _show_gens(gens):
 # boolean normal form
 # ----------------------------------------------------------------------
 
+def _percent_spec(conv, spec):
+    """The %-conversion that formats like `{!conv:spec}` for the simple
+    cases (None if there is none)."""
+    if conv == 'r' and spec == '':
+        return '%r'
+    if conv in ('', 's') and spec == '':
+        return '%s'
+    if conv == 'a' and spec == '':
+        return '%a'
+    m = re.match(r'^([-+ 0#]?)(\d*)((?:\.\d+)?)([dgfeExXs])$', spec)
+    if m and conv == '':
+        return '%' + m.group(1) + m.group(2) + m.group(3) + m.group(4)
+    return None
+
+
+def _format_to_percent(template, nargs):
+    """'a {} b {0!r} c {1:d}'  ->  ('a %s b %r c %d', [0, 0, 1]); None for
+    anything fancier (named fields, nested specs, attribute access)."""
+    out, order, auto = '', [], 0
+    i = 0
+    while i < len(template):
+        ch = template[i]
+        if ch == '{':
+            if template[i:i + 2] == '{{':
+                out += '{'
+                i += 2
+                continue
+            j = template.find('}', i)
+            if j < 0:
+                return None
+            field = template[i + 1:j]
+            m = re.match(r'^(\d*)(?:!([rsa]))?(?::([^{}]*))?$', field)
+            if not m:
+                return None
+            idx = int(m.group(1)) if m.group(1) else auto
+            if not m.group(1):
+                auto += 1
+            f = _percent_spec(m.group(2) or '', m.group(3) or '')
+            if f is None or idx >= nargs:
+                return None
+            out += f
+            order.append(idx)
+            i = j + 1
+        elif ch == '}':
+            if template[i:i + 2] == '}}':
+                out += '}'
+                i += 2
+                continue
+            return None
+        else:
+            out += '%%' if ch == '%' else ch
+            i += 1
+    return out, order
+
+
 def fmt_key(ka, kb):
     """'text %s' % args with constant string arguments of %s fields folded
     into the text ('%s %s' % ('group', k) == 'group %s' % k)."""
@@ -342,6 +397,32 @@ def lift_ifexp(k, depth=0):
                  lift_ifexp(subst(k, t, t[3]), depth + 1))
 
 
+STR_PREDICATES = ('isdigit', 'isalpha', 'isalnum', 'isdecimal', 'isnumeric',
+                  'isupper', 'islower', 'isspace', 'istitle', 'isidentifier')
+
+
+def simplify_lits(lits):
+    """Drop literals implied by others in a conjunction: `x.isdigit()`
+    (any str predicate) implies `x` is non-empty, and an empty `x` implies
+    the predicate is False."""
+    ls = set(lits)
+    for l in list(ls):
+        if l[0] == 'truthy' and l[1][0] == 'call' and l[1][1][0] == 'attr' \
+                and l[1][1][2] in STR_PREDICATES and not l[1][2]:
+            ls.discard(('truthy', l[1][1][1]))
+        if l[0] == 'not' and l[1][0] == 'truthy':
+            x = l[1][1]
+            for m in list(ls):
+                if m[0] == 'not' and m[1][0] == 'truthy' \
+                        and m[1][1][0] == 'call' \
+                        and m[1][1][1][0] == 'attr' \
+                        and m[1][1][1][1] == x \
+                        and m[1][1][1][2] in STR_PREDICATES \
+                        and not m[1][1][2]:
+                    ls.discard(m)
+    return ls
+
+
 def exists_key(gens, lits):
     """'some iteration of gens satisfies all lits' -- the one form shared by
     any(genexp), a flag-and-break loop and an early exit out of a loop."""
@@ -351,7 +432,7 @@ def exists_key(gens, lits):
         for c in conds:
             ls |= lits_of(c)
         g2.append((base, it, ()))
-    return ('exists', tuple(g2), tuple(sorted(ls, key=_sk)))
+    return ('exists', tuple(g2), tuple(sorted(simplify_lits(ls), key=_sk)))
 
 
 def b_not(k):
@@ -412,6 +493,12 @@ def b_cmp(op, a, b):
                 r = b_not(x[1])
             if r is not None:
                 return r if op == '==' else b_not(r)
+    if op in ('==', '!=') and a[0] in _BOOLISH and b[0] in _BOOLISH:
+        # two truth values are equal iff both hold or neither does
+        both = ('and', tuple(sorted((a, b), key=_sk)))
+        neither = ('and', tuple(sorted((b_not(a), b_not(b)), key=_sk)))
+        r = ('or', tuple(sorted((both, neither), key=_sk)))
+        return r if op == '==' else b_not(r)
     if op == '<':
         return ('cmp', '<', a, b)
     if op == '>':
@@ -725,13 +812,29 @@ class Evaluator(object):
         return ('dict', tuple(items))
 
     def ev_JoinedStr(self, n, st):
-        parts = []
+        # f'..{x!r}..{n:d}' is '..%r..%d' % (x, n)
+        text, args = '', []
         for v in n.values:
             if isinstance(v, ast.Constant):
-                parts.append(('const', v.value))
-            else:
-                parts.append(self.k(v.value, st))
-        return ('fstr', tuple(parts))
+                text += str(v.value).replace('%', '%%')
+                continue
+            spec = ''
+            if v.format_spec is not None:
+                if len(v.format_spec.values) == 1 and isinstance(
+                        v.format_spec.values[0], ast.Constant):
+                    spec = str(v.format_spec.values[0].value)
+                else:
+                    raise Unmodelled('computed format spec')
+            conv = {114: 'r', 115: 's', 97: 'a', -1: ''}.get(v.conversion, '')
+            f = _percent_spec(conv, spec)
+            if f is None:
+                raise Unmodelled('format spec %r' % spec)
+            text += f
+            args.append(self.k(v.value, st))
+        if not args:
+            return ('const', text.replace('%%', '%'))
+        return fmt_key(('const', text), args[0] if len(args) == 1
+                       else ('tuple', tuple(args)))
 
     def ev_UnaryOp(self, n, st):
         if isinstance(n.op, ast.Not):
@@ -1081,16 +1184,14 @@ class Evaluator(object):
                 return ('comp', 'list') + args[0][2:]
         if fk[0] == 'attr' and fk[2] == 'format' and fk[1][0] == 'const' \
                 and isinstance(fk[1][1], str) and not kws:
-            parts = fk[1][1].split('{}')
-            if len(parts) == len(args) + 1 and '{' not in ''.join(parts) \
-                    and '}' not in ''.join(parts):
-                out = []
-                for i, ptxt in enumerate(parts):
-                    if ptxt:
-                        out.append(('const', ptxt))
-                    if i < len(args):
-                        out.append(args[i])
-                return ('fstr', tuple(out))
+            conv = _format_to_percent(fk[1][1], len(args))
+            if conv is not None:
+                text, order = conv
+                fargs = [args[i] for i in order]
+                if not fargs:
+                    return ('const', text.replace('%%', '%'))
+                return fmt_key(('const', text), fargs[0] if len(fargs) == 1
+                               else ('tuple', tuple(fargs)))
         res = ('call', fk, tuple(args), kws)
         self._note_call(st, res, n)
         # a call on self (or passing self) may change self's attributes
@@ -1991,6 +2092,27 @@ class Summarizer(Evaluator):
                 return [(st, None)]
         v = self.k(n.value, st)
         st.trace.append(('expr', v, n.lineno))
+        # `obj.method(...)` whose value is thrown away is there for what it
+        # does to obj: a local that holds a value computed from obj before
+        # this point holds a snapshot, not what the same expression would
+        # give now
+        if isinstance(c, ast.Call) and isinstance(c.func, ast.Attribute) \
+                and v[0] == 'call' and v[1][0] == 'attr':
+            rk = v[1][1]
+            root = rk
+            while root[0] in ('attr', 'sub'):
+                root = root[1]
+            local_root = root[0] == 'name' and (
+                root[1] in getattr(self, 'locals_', ())
+                or root[1] in getattr(self, 'params_', ()))
+            if rk[0] in ('name', 'attr', 'sub') and rk != ('name', 'self') \
+                    and local_root:
+                for name, val in list(st.env.items()):
+                    kv = key(val)
+                    if kv != rk and isinstance(kv, tuple) and kv and kv[0] \
+                            not in ('snapshot', 'import', 'importfrom',
+                                    'localfunc') and mentions_any(kv, [rk]):
+                        st.env[name] = ('snapshot', kv)
         return [(st, None)]
 
     def st_Return(self, n, st):
@@ -2087,6 +2209,15 @@ class Summarizer(Evaluator):
                               self.k(n.value, st)), n.lineno))
             return [(st, None)]
         val = self.ev(n.value, st)
+        vk = key(val)
+        if vk[0] == 'call' and all(isinstance(t, (ast.Name, ast.Tuple,
+                                                  ast.List))
+                                   for t in n.targets) and not isinstance(
+                n.value, ast.Name):
+            # if nothing ever reads the targets, the call was made for its
+            # effect: refcmp.signature turns it into one (like the same call
+            # written as an expression statement)
+            st.trace.append(('assigned-call', vk, n.lineno))
         for t in n.targets:
             self.assign(t, val, st, n.lineno)
         return [(st, None)]
@@ -2097,6 +2228,21 @@ class Summarizer(Evaluator):
         return [(st, None)]
 
     def st_AugAssign(self, n, st):
+        if isinstance(n.target, ast.Name) and n.target.id in st.env:
+            cur = key(st.env[n.target.id])
+            ref = cur
+            if ref[0] == 'carried':
+                ref = ref[2]
+            if ref[0] == 'snapshot':
+                ref = ref[1]
+            if ref[0] in ('name', 'attr', 'sub', 'bv') and not (
+                    ref[0] == 'name' and ref[1] in getattr(
+                        self, 'locals_', ())):
+                # `x op= y` where x is (an alias of) an object that exists
+                # outside this statement: for arrays and lists the object
+                # itself changes -- not the same as `x = x op y`
+                st.trace.append(('inplace', ref, type(n.op).__name__,
+                                 self.k(n.value, st), n.lineno))
         fake = ast.BinOp(left=_load(n.target), op=n.op, right=n.value)
         ast.copy_location(fake, n)
         val = self.ev(fake, st)
@@ -2288,7 +2434,8 @@ class Summarizer(Evaluator):
             'name', 'list', 'dict', 'set', 'call', 'comp', 'attr', 'sub'))
         if mkeys:
             for name, v in list(body_st.env.items()):
-                if name in mutated or name in first:
+                if name in mutated or name in first or name in getattr(
+                        self, '_loop_bound', ()):
                     continue
                 kv = key(v)
                 if isinstance(kv, tuple) and kv and kv[0] in (
@@ -2453,6 +2600,11 @@ class Summarizer(Evaluator):
         pre = st
         body_st = State(dict(pre.env), dict(pre.heap), [])
         bind(body_st)
+        # names the loop header itself binds (element, index): fresh each
+        # iteration, never a stale snapshot
+        self._loop_bound = set(
+            k for k, v in body_st.env.items()
+            if k not in pre.env or pre.env[k] is not v)
         appenders = self._appenders(body, pre) if is_for else set()
         dictb = self._dict_builders(body, pre) if is_for else set()
         flags = self._flags(body, pre)
@@ -2669,7 +2821,18 @@ class Summarizer(Evaluator):
                     posts.add((path_lits(s) if len(fall_states) > 1 else (),
                                None if pv is None else key(pv),
                                o[0] if o else None))
-                newv = ('loopvar', gens_key, tuple(sorted(posts, key=_sk)))
+                # (as a decision table: which update under which condition)
+                try:
+                    from . import bdd as _bdd
+                    table = _bdd.canon([(frozenset(l), pv, o)
+                                        for l, pv, o in posts])
+                    newv = ('loopvar', gens_key,
+                            tuple(sorted(table, key=_sk)))
+                except (RecursionError, Exception) as exc:
+                    if isinstance(exc, AnalysisError):
+                        raise
+                    newv = ('loopvar', gens_key,
+                            tuple(sorted(posts, key=_sk)))
             ft.env[name] = newv
         # heap entries written in the body are unknown afterwards
         for s, o in fall_states:
